@@ -26,7 +26,10 @@ def do_import(wt, prop):
         d = os.path.join(src, k)
         if not os.path.isfile(os.path.join(d, "patch.diff")):
             continue
-        dst = os.path.join(SEEDED, f"{prop}-{k}")
+        n = 1
+        while os.path.exists(os.path.join(SEEDED, f"{prop}-{n}")):
+            n += 1                      # never overwrite an earlier round
+        dst = os.path.join(SEEDED, f"{prop}-{n}")
         os.makedirs(dst, exist_ok=True)
         for f in ("patch.diff", "demo.py", "meta.json"):
             if os.path.exists(os.path.join(d, f)):
